@@ -23,7 +23,7 @@ ASSUMPTIONS = ["what serde 1.0.229's derived visitors and Content buffer do (Mod
 
 KEYS = """bool u8 u16 u32 u64 usize i8 i16 i32 i64 isize f32 f64 char string strref bytebuf bytesref unit disp any ign
 US NT NTO TS P2 Prims WithOpt WithOpt2 Nested Wide Ext Ext2 Ext1 ExtU InnerU InnerC InnerUS InnerE Int IntF Adj Unt UntF
-Fl Fl2 FlM FlU FlF FlFC FlK FlMK FlMC InnerB IntB AdjB UntB FlB Hr arr4(u8)
+Fl Fl2 FlM FlU FlF FlFC FlK FlMK FlMC InnerB IntB AdjB UntB FlB Hr arr4(u8) SkipS SkipE opt(SkipS) seq(SkipS)
 opt(u8) opt(string) opt(unit) opt(opt(u8)) opt(NTO) opt(P2) opt(Ext) opt(US)
 seq(u8) seq(opt(u16)) seq(P2) seq(Ext) seq(seq(i8)) seq(unit) seq(US) seq(Unt) seq(Int) seq(Fl) seq(Adj) seq(string) seq(bytebuf) seq(char)
 iseq(u8) iseq(P2) iseq(iseq(u8)) iseq(opt(string))
@@ -144,7 +144,7 @@ def cross_check(cases, impl_out, model_out):
         if t[0] != "SER": continue
         parts = mo.split("\t")
         aux = dict(p.split("=", 1) for p in parts[1:] if "=" in p)
-        if "F" not in aux: continue
+        if "F" not in aux or "Skip" in t[1]: continue     # Skip*: call trees with skipped fields are outside the theorem's typing (conf_any)
         d = sg.parse_expr(t[1])
         try: v = parse_value(d, t[2])
         except Exception: continue
@@ -158,7 +158,7 @@ def cross_check(cases, impl_out, model_out):
             spec = aux.get("S", "-")
             if spec not in ("-", None) and parts[0] != spec:
                 bad.append((line, "every hypothesis of C17_roundtrip_any holds but the model does not read the value back: %s vs %s" % (parts[0], spec)))
-        elif not hit and not sg.opt_in_opt(d) and not uses_ign(d):
+        elif not hit and not sg.opt_in_opt(d) and not uses_ign(d) and "Skip" not in t[1]:     # Skip*: call trees with skipped fields are outside the theorem's typing
             bad.append((line, "a generated value outside F12 does not satisfy the hypotheses of C17_roundtrip_any (conf_any / sval_ok)"))
     return bad[:50]
 
